@@ -199,12 +199,15 @@ fn q(v: &str) -> String {
     if needs { format!("\"{}\"", body) } else { body }
 }
 
-const VALS: [&str; 10] = ["a", "c d", "", "x#y", "q\"t", "\\${v0}", "handle:zzzzzzzzzzzzzzzzzzzz", "-e", "b", "h\u{e9}"];
-const HANDLES: [&str; 6] = ["${arr}", "${arr2}", "${mp}", "${st}", "nohandle", "${undefinedvar}"];
-const VARNAMES: [&str; 14] = [
+const VALS: [&str; 12] = ["a", "c d", "", "x#y", "q\"t", "\\${v0}", "handle:zzzzzzzzzzzzzzzzzzzz", "-e", "b", "h\u{e9}", "${eq1}", "${eq0}"];
+// (eq0 / eq1 / eq2 hold `=`, `=pwd`, `=v1`: a value that reads like the start of an assignment)
+const HANDLES: [&str; 9] = ["${arr}", "${arr2}", "${mp}", "${st}", "nohandle", "${undefinedvar}", "${eq0}", "${eq1}", "${eq2}"];
+const VARNAMES: [&str; 17] = [
     "v0", "v1", "v2", "nope", "scope::unset::name", "scope::array_contains::index", "scope::join_path::output", "scope::concat::output", "v3",
     // names that merely EXTEND a command's scope name (no separator): these are ordinary caller variables
     "scope::join_path_all::root", "scope::unsetx::name", "scope::concatenate::output", "scope::array_contains2::index", "scope::glob_cpx::target",
+    // caller variables named like commands the scripts use
+    "is_array", "map_is_empty", "equals",
 ];
 
 /// scope prefix ("scope::<name>") of every script-implemented command, read off the script source in its help
@@ -289,8 +292,9 @@ fn invocation(rng: &mut Rng, avoid_own_names: bool) -> String {
         12 => if short { format!("map_contains_key {}", hnd(rng)) } else { format!("map_contains_key {} {}", hnd(rng), q(*rng.pick(&["k", "k2", "", "c d"]))) },
         13 | 14 => if short { format!("map_contains_value {}", hnd(rng)) } else { format!("map_contains_value {} {}", hnd(rng), q(*rng.pick(&["v", "w", "", "c d"]))) },
         15 => if short { "map_is_empty".to_string() } else { format!("map_is_empty {}", hnd(rng)) },
-        16 => match rng.below(4) {
+        16 => match rng.below(5) {
             0 => "base64".to_string(),
+            4 => format!("base64 {} {}", val(rng), val(rng)),
             1 => format!("base64 -e {}", val(rng)),
             2 => format!("base64 -d {}", q(*rng.pick(&["aGVsbG8=", "!!!", ""]))),
             _ => format!("base64 {}", val(rng)),
@@ -357,6 +361,9 @@ fn gen_case(rng: &mut Rng, avoid_scope_names: bool) -> Case {
     main.push(Stmt::Raw("map_put ${mp} k v".to_string()));
     main.push(Stmt::Raw("map_put ${mp} k2 \"c d\"".to_string()));
     main.push(Stmt::Raw("st = set_new x y".to_string()));
+    main.push(Stmt::Raw("eq0 = set \"=\"".to_string()));
+    main.push(Stmt::Raw("eq1 = set \"=pwd\"".to_string()));
+    main.push(Stmt::Raw("eq2 = set \"=v1\"".to_string()));
     main.push(Stmt::Raw("writefile run/c19/f1.txt hello".to_string()));
     main.push(Stmt::Raw("writefile run/c19/f2.txt world".to_string()));
     let use_fn = rng.chance(1, 2);
@@ -366,7 +373,7 @@ fn gen_case(rng: &mut Rng, avoid_scope_names: bool) -> Case {
         match rng.below(7) {
             6 => {
                 // between a scope push and its pop (the command's clean-up must not depend on the scope stack)
-                main.push(Stmt::Raw(format!("scope_push_stack{}", if rng.chance(2, 3) { " --copy arr arr2 mp st v0 v1" } else { "" })));
+                main.push(Stmt::Raw(format!("scope_push_stack{}", if rng.chance(2, 3) { " --copy arr arr2 mp st v0 v1 eq0 eq1 eq2" } else { "" })));
                 main.extend(burst(rng, avoid_scope_names));
                 main.push(Stmt::Raw("scope_pop_stack".to_string()));
             }
